@@ -123,8 +123,8 @@ def run_fft(case, seed, R):
             if P is not None:
                 ok = bool(np.all((P == 0) | (P == 1)) and np.all(P.sum(axis=0) == 1) and np.all(P.sum(axis=1) <= 1))
                 R.expect(ok, f'pad2d:not-partial-permutation:{cell}', f'pad2d({si}, Q={Q}) is not a 0/1 matrix with one 1 per column and at most one per row')
-                R.expect(np.iscomplexobj(fttools.pad2d(np.zeros(si, cdt), Q)) , f'pad2d:dtype:{cell}', 'pad2d drops the imaginary part')
-                R.tick()
+                pz = R.call(fttools.pad2d, np.zeros(si, cdt), Q)
+                R.expect(pz is not FAILED and np.iscomplexobj(pz), f'pad2d:dtype:{cell}', 'pad2d drops the imaginary part')
             ops = {}
             for name, fn in (('focus', propagation.focus), ('unfocus', propagation.unfocus)):
                 A = op(R, lambda a: fn(a, Q), si, f'{name}:{cell}:{p}', cdt, so)   # noqa
